@@ -44,10 +44,14 @@ package supervisor_test
 //     new one is initialised (a name never has two live objects); across
 //     domains the order of Close(old) and Init(new) is free.
 //   * shutdown (Supervisor.Close) is not judged.
-//   * snapshots applied before a watcher exists are folded into that watcher's
-//     first event (state based, legitimate); only the first snapshot is ever
-//     sent that early, so the expected calls do not depend on whether it was
-//     folded.
+//   * start-up: up to 4 snapshots are pushed before and while MustNew creates
+//     the registry and the watchers. Snapshots applied before a domain's
+//     watcher exists are folded into that watcher's first event (state based,
+//     legitimate). The harness cannot see how many were folded, so a domain's
+//     history must be explained by SOME folding of 0..E leading snapshots (E =
+//     snapshots sent before MustNew returned; the same number for all names
+//     of the domain); whatever was folded, the live set must equal the last
+//     snapshot.
 //   * production map ranges are made reproducible by check.json "map_ranges";
 //     the per-run log is nevertheless written sorted per name.
 //
@@ -112,11 +116,16 @@ type c20Reader struct {
 
 type c20Scenario struct {
 	ChanCap   int         `json:"chan_cap"`
-	EarlyFeed bool        `json:"early_feed"`
+	Early     int         `json:"early"`      // snapshots the feeder may push before MustNew has returned (0 = none)
+	EarlyWait int         `json:"early_wait"` // snapshots main waits for (as far as the channel holds them) before it calls MustNew
 	Snaps     []c20Snap   `json:"snaps"`
 	Panics    []c20Panic  `json:"panics"`
 	DelaysUs  []int64     `json:"delays_us"` // delay of the i-th callback overall (cyclic)
 	Readers   []c20Reader `json:"readers"`
+	// delay of the i-th Category() call made on a recording object while
+	// MustNew runs (cyclic): the watcher filters are "code of the caller" and
+	// may be slow
+	CatDelaysUs []int64 `json:"cat_delays_us"`
 }
 
 const (
@@ -181,6 +190,15 @@ func c20Gen(rng *sim.Rand, tier string) interface{} {
 		}
 	}
 	nsnap := rng.Range(2, 12)
+	// start-up runs: 1-4 snapshots are pushed before and while MustNew creates
+	// the registry and the two watchers
+	early := 0
+	if rng.Bool(0.45) {
+		early = rng.Pick(1, 2, 3, 4)
+		if nsnap < early+1 {
+			nsnap = early + 1
+		}
+	}
 	// backlog runs: many snapshots pushed at once while the first callbacks are
 	// slow, so that the watchers' event queues (and the syncer channel) fill up
 	backlog := rng.Bool(0.08)
@@ -192,6 +210,11 @@ func c20Gen(rng *sim.Rand, tier string) interface{} {
 		sn := c20Snap{GapUs: int64(rng.Pick(0, 0, 0, 1, 50, 1000, 5000)), Settle: rng.Bool(0.25)}
 		if backlog {
 			sn.GapUs, sn.Settle = 0, false
+		}
+		uw, cw, gw := wUnch, wChange, wGone
+		if i < early {
+			sn.GapUs, sn.Settle = int64(rng.Pick(0, 0, 0, 1)), false
+			uw, cw, gw = 10, 40, 30
 		}
 		for _, n := range names {
 			c := state[n]
@@ -212,13 +235,13 @@ func c20Gen(rng *sim.Rand, tier string) interface{} {
 					c.rev = maxRev[n]
 				}
 			} else {
-				x := rng.Intn(wUnch + wChange + wGone + wKC)
+				x := rng.Intn(uw + cw + gw + wKC)
 				switch {
-				case x < wUnch:
-				case x < wUnch+wChange:
+				case x < uw:
+				case x < uw+cw:
 					maxRev[n]++
 					c.rev = maxRev[n]
-				case x < wUnch+wChange+wGone:
+				case x < uw+cw+gw:
 					c.present = false
 					continue
 				default:
@@ -246,9 +269,18 @@ func c20Gen(rng *sim.Rand, tier string) interface{} {
 		sc.DelaysUs = []int64{int64(rng.Pick(20000, 100000)), 0, 0}
 		sc.ChanCap = rng.Pick(0, 4, 16)
 	}
-	sc.EarlyFeed = rng.Bool(0.4)
-	if sc.EarlyFeed && sc.ChanCap == 0 {
-		sc.ChanCap = 1
+	if early > 0 {
+		sc.Early = early
+		// mostly: all early snapshots already wait in the channel when the
+		// registry starts, so that it applies them while the watchers are
+		// being created
+		sc.ChanCap = rng.Pick(early, early, early, 16, 1, 2)
+		sc.EarlyWait = rng.Pick(early, early, early, rng.Range(0, early))
+		if rng.Bool(0.7) {
+			for i, k := 0, rng.Range(1, 3); i < k; i++ {
+				sc.CatDelaysUs = append(sc.CatDelaysUs, int64(rng.Pick(0, 0, 100, 1000)))
+			}
+		}
 	}
 	for i, k := 0, rng.Pick(0, 0, 1, 2); i < k; i++ {
 		var rd c20Reader
@@ -301,8 +333,12 @@ type c20State struct {
 	plan   map[string]bool
 	delays []int64
 	cbN    int
-	total  int
-	ended  bool
+	// Category() delays during start-up
+	startup   bool
+	catDelays []int64
+	catN      int
+	total     int
+	ended     bool
 }
 
 var c20cur *c20State
@@ -408,13 +444,36 @@ func (*c20BizB) Kind() string { return c20KindBizB }
 func (*c20Pipe) Kind() string { return c20KindPipe }
 func (*c20Gate) Kind() string { return c20KindGate }
 func (*c20BizA) Category() supervisor.ObjectCategory {
+	c20CatHook()
 	return supervisor.CategoryBusinessController
 }
 func (*c20BizB) Category() supervisor.ObjectCategory {
+	c20CatHook()
 	return supervisor.CategoryBusinessController
 }
-func (*c20Pipe) Category() supervisor.ObjectCategory { return supervisor.CategoryPipeline }
-func (*c20Gate) Category() supervisor.ObjectCategory { return supervisor.CategoryTrafficGate }
+func (*c20Pipe) Category() supervisor.ObjectCategory {
+	c20CatHook()
+	return supervisor.CategoryPipeline
+}
+func (*c20Gate) Category() supervisor.ObjectCategory {
+	c20CatHook()
+	return supervisor.CategoryTrafficGate
+}
+
+// c20CatHook makes the watcher filters (which ask every object for its
+// category) slow while the supervisor starts up.
+func c20CatHook() {
+	st := c20cur
+	if st == nil || st.ended || !st.startup || len(st.catDelays) == 0 {
+		return
+	}
+	d := st.catDelays[st.catN%len(st.catDelays)]
+	st.catN++
+	if d > 0 {
+		st.r.Probe("c20.slow_filter_during_startup")
+		st.r.Sleep(time.Duration(d) * time.Microsecond)
+	}
+}
 
 func init() {
 	logger.InitNop()
@@ -475,36 +534,48 @@ func c20SortedNames(ms ...map[string]c20Obj) []string {
 	return out
 }
 
-// c20Expect derives, from the snapshot sequence alone, the calls the
-// statement requires for every "<name>/<domain>" (snapshots 0..upto). From the
-// point of view of one domain a name is present while its kind belongs to the
-// domain.
-func c20Expect(sc *c20Scenario, upto int) map[string][]*c20Exp {
-	out := map[string][]*c20Exp{}
+// c20ExpectDom derives, from the snapshot sequence alone, the calls the
+// statement requires for every "<name>/<dom>" (snapshots 0..upto) of one
+// controller domain. From the point of view of a domain a name is present
+// while its kind belongs to the domain. fold is the number of leading
+// snapshots that had been applied before the domain's watcher existed: they
+// reach the controller folded into one state (the last of them), which is how
+// a state-based watcher legitimately starts.
+func c20ExpectDom(sc *c20Scenario, upto int, d string, fold int, out map[string][]*c20Exp) {
 	prev := map[string]c20Obj{}
-	for i := 0; i <= upto && i < len(sc.Snaps); i++ {
+	first := 0
+	if fold > 0 {
+		first = fold - 1
+	}
+	for i := first; i <= upto && i < len(sc.Snaps); i++ {
 		cur := c20SnapMap(sc.Snaps[i])
 		for _, n := range c20SortedNames(prev, cur) {
 			p, was := prev[n]
 			c, is := cur[n]
 			kc := was && is && p.Kind != c.Kind
-			for _, d := range c20Domains {
-				key := n + "/" + d
-				wasD := was && c20Domain(p.Kind) == d
-				isD := is && c20Domain(c.Kind) == d
-				switch {
-				case !wasD && isD:
-					out[key] = append(out[key], &c20Exp{"init", c.Kind, c.Rev, i, kc})
-				case wasD && !isD:
-					out[key] = append(out[key], &c20Exp{"close", p.Kind, p.Rev, i, kc})
-				case wasD && isD && kc:
-					out[key] = append(out[key], &c20Exp{"close", p.Kind, p.Rev, i, true}, &c20Exp{"init", c.Kind, c.Rev, i, true})
-				case wasD && isD && p.Rev != c.Rev:
-					out[key] = append(out[key], &c20Exp{"inherit", c.Kind, c.Rev, i, false})
-				}
+			key := n + "/" + d
+			wasD := was && c20Domain(p.Kind) == d
+			isD := is && c20Domain(c.Kind) == d
+			switch {
+			case !wasD && isD:
+				out[key] = append(out[key], &c20Exp{"init", c.Kind, c.Rev, i, kc})
+			case wasD && !isD:
+				out[key] = append(out[key], &c20Exp{"close", p.Kind, p.Rev, i, kc})
+			case wasD && isD && kc:
+				out[key] = append(out[key], &c20Exp{"close", p.Kind, p.Rev, i, true}, &c20Exp{"init", c.Kind, c.Rev, i, true})
+			case wasD && isD && p.Rev != c.Rev:
+				out[key] = append(out[key], &c20Exp{"inherit", c.Kind, c.Rev, i, false})
 			}
 		}
 		prev = cur
+	}
+}
+
+// c20Expect is the expectation of both domains without any folding.
+func c20Expect(sc *c20Scenario, upto int) map[string][]*c20Exp {
+	out := map[string][]*c20Exp{}
+	for _, d := range c20Domains {
+		c20ExpectDom(sc, upto, d, 0, out)
 	}
 	return out
 }
@@ -668,6 +739,13 @@ func c20Exec(r *sim.Run, sci interface{}) {
 		}
 		st.delays = append(st.delays, d)
 	}
+	for _, d := range sc.CatDelaysUs {
+		if d < 0 || d > 1000000 {
+			d = 0
+		}
+		st.catDelays = append(st.catDelays, d)
+	}
+	st.startup = true
 	c20cur = st
 	defer func() { c20cur = nil }()
 
@@ -696,9 +774,12 @@ func c20Exec(r *sim.Run, sci interface{}) {
 	var super *supervisor.Supervisor
 	var tc *trafficcontroller.TrafficController
 	ready := false
+	readyCh := make(chan struct{})
 	done := map[string]bool{} // keys no longer judged (already reported)
 	reported := map[string]bool{}
 	stuck := false
+	early := 0             // snapshots whose send completed before MustNew had returned
+	foldedSeveral := false // some domain's history is explained by folding >= 2 snapshots
 	const ns = rawconfigtrafficcontroller.DefaultNamespace
 
 	report := func(class, key string, upto int, format string, a ...interface{}) {
@@ -744,7 +825,6 @@ func c20Exec(r *sim.Run, sci interface{}) {
 	// judge compares everything recorded so far with what snapshots 0..upto
 	// require. Only called when the system is quiescent.
 	judge := func(upto int) {
-		exp := c20Expect(sc, upto)
 		keySet := map[string]bool{}
 		for i := 0; i <= upto && i < len(sc.Snaps); i++ {
 			for n := range c20SnapMap(sc.Snaps[i]) {
@@ -761,13 +841,60 @@ func c20Exec(r *sim.Run, sci interface{}) {
 			keys = append(keys, k)
 		}
 		sort.Strings(keys)
+		// Start-up rule: the snapshots sent before MustNew had returned may
+		// have been applied before a domain's watcher existed; any number of
+		// them (0..early) may have been folded into the watcher's first
+		// event, the same number for all names of the domain. The domain is
+		// judged against the folding that explains its history best; with no
+		// early snapshots there is exactly one candidate.
 		panicSnaps := map[int]map[string]bool{}
 		verdicts := map[string]*c20Verdict{}
-		for _, k := range keys {
-			if done[k] || strings.HasPrefix(k, "?") {
-				continue
+		for _, d := range c20Domains {
+			maxFold := early
+			if maxFold > upto+1 {
+				maxFold = upto + 1
 			}
-			verdicts[k] = c20Walk(exp[k], st.calls[k], panicSnaps, k)
+			bestBad := -1
+			var bestV map[string]*c20Verdict
+			var bestP map[int]map[string]bool
+			bestFold := 0
+			for fold := 0; fold <= maxFold; fold++ {
+				exp := map[string][]*c20Exp{}
+				c20ExpectDom(sc, upto, d, fold, exp)
+				vs := map[string]*c20Verdict{}
+				ps := map[int]map[string]bool{}
+				bad := 0
+				for _, k := range keys {
+					if done[k] || strings.HasPrefix(k, "?") || !strings.HasSuffix(k, "/"+d) {
+						continue
+					}
+					vs[k] = c20Walk(exp[k], st.calls[k], ps, k)
+					if vs[k].class != "" {
+						bad++
+						vs[k].msg += fmt.Sprintf(" [start-up: %d early snapshot(s), best explanation folds the first %d]", early, fold)
+					}
+				}
+				if bestBad < 0 || bad < bestBad {
+					bestBad, bestV, bestP, bestFold = bad, vs, ps, fold
+				}
+				if bad == 0 {
+					break
+				}
+			}
+			if bestFold >= 2 {
+				foldedSeveral = true
+			}
+			for k, v := range bestV {
+				verdicts[k] = v
+			}
+			for sn, m := range bestP {
+				if panicSnaps[sn] == nil {
+					panicSnaps[sn] = map[string]bool{}
+				}
+				for k := range m {
+					panicSnaps[sn][k] = true
+				}
+			}
 		}
 		last := map[string]c20Obj{}
 		if upto < len(sc.Snaps) {
@@ -851,7 +978,6 @@ func c20Exec(r *sim.Run, sci interface{}) {
 	}
 
 	sent := -1
-	earlyQueued := false
 	feeder := func() {
 		for i, sn := range sc.Snaps {
 			if r.Aborted() || stuck {
@@ -865,8 +991,12 @@ func c20Exec(r *sim.Run, sci interface{}) {
 			// Snapshots applied before a watcher exists are legitimately
 			// folded into its first event; only the first snapshot may be that
 			// early, so that the expected calls do not depend on it.
-			for i > 0 && !ready && !r.Aborted() {
-				r.Sleep(time.Microsecond)
+			if i >= sc.Early && !ready {
+				<-readyCh
+				r.Sleep(0)
+				if stuck {
+					return
+				}
 			}
 			m := map[string]string{}
 			objs := c20SnapMap(sn)
@@ -876,7 +1006,7 @@ func c20Exec(r *sim.Run, sci interface{}) {
 			ch <- m
 			sent = i
 			if !ready {
-				earlyQueued = true
+				early = i + 1
 			}
 			if i > 0 && st.total < cum[i-1] {
 				r.Probe("c20.snapshot_sent_while_backlog")
@@ -893,7 +1023,7 @@ func c20Exec(r *sim.Run, sci interface{}) {
 					r.Violate("C20.harness", "expected the two production watchers, found %d", w)
 				}
 			}
-			if sn.Settle || i == len(sc.Snaps)-1 {
+			if (sn.Settle && ready) || i == len(sc.Snaps)-1 {
 				if !settle() {
 					if !r.Aborted() {
 						stuck = true
@@ -907,14 +1037,21 @@ func c20Exec(r *sim.Run, sci interface{}) {
 	}
 
 	started := false
-	if sc.EarlyFeed {
+	if sc.Early > 0 {
 		started = true
 		r.Go("feeder", feeder)
 		// let the first snapshot sit in the channel before the registry is
 		// created: the registry's first applyConfig then races with the two
 		// NewWatcher calls (objects arrive in a watcher's first event or in a
 		// regular event)
-		for sc.ChanCap >= 1 && sent < 0 && !r.Aborted() {
+		wait := sc.EarlyWait
+		if wait > sc.ChanCap {
+			wait = sc.ChanCap
+		}
+		if wait > len(sc.Snaps) {
+			wait = len(sc.Snaps)
+		}
+		for sent < wait-1 && !r.Aborted() {
 			r.Sleep(time.Microsecond)
 		}
 	}
@@ -924,9 +1061,14 @@ func c20Exec(r *sim.Run, sci interface{}) {
 	}
 	if _, ok := super.GetSystemController(rawconfigtrafficcontroller.Kind); !ok || tc == nil {
 		r.Violate("C20.harness", "TrafficController / RawConfigTrafficController system controllers missing")
+		stuck = true
+		close(readyCh)
+		r.WaitTasks()
 		return
 	}
 	ready = true
+	st.startup = false
+	close(readyCh)
 	if !started {
 		r.Go("feeder", feeder)
 	}
@@ -967,8 +1109,14 @@ func c20Exec(r *sim.Run, sci interface{}) {
 	}
 
 	// ---- probes, signature, log (sorted per name)
-	if earlyQueued {
-		r.Probe("c20.snapshot_queued_before_MustNew_returned")
+	if early >= 1 {
+		r.Probe("c20.snapshot_sent_before_MustNew_returned")
+	}
+	if early >= 2 {
+		r.Probe("c20.several_snapshots_sent_before_MustNew_returned")
+	}
+	if foldedSeveral {
+		r.Probe("c20.startup_folded>=2_snapshots")
 	}
 	keys := make([]string, 0, len(st.calls))
 	for k := range st.calls {
@@ -1128,7 +1276,7 @@ func TestVerifC20(t *testing.T) {
 			"a YAML-equivalent document (key order, quoting) is an unchanged spec",
 			"the relative order of calls on different names inside one snapshot is not judged",
 			"every snapshot put on the syncer channel counts as applied, in order; Supervisor.Close (shutdown) is not judged",
-			"only the first snapshot may reach the registry before the watchers exist (earlier snapshots are legitimately folded into a watcher's first event)",
+			"start-up: snapshots applied before a domain's watcher exists are legitimately folded into its first event; a domain's history must match some folding of 0..E leading snapshots (E = snapshots sent before MustNew returned), the same for all names of the domain",
 			"quiescence = a 2 h simulated sleep returns during which the scheduler stalled for less than 2 h (r.StalledFor) and no snapshot/watcher event is pending",
 			"the real Pipeline kind is not used: all traffic test kinds live in TrafficController's traffic-gate map",
 		},
